@@ -561,3 +561,35 @@ def strip_block(n):
             return n
         n = b["expr"]
     return n
+
+
+def hir_shape(node, _env=None):
+    """structural fingerprint of a HIR subtree: node kinds, resolved callees / definitions, operators, literals and field
+    names, with local bindings numbered by first occurrence (alpha-equivalent code gives equal shapes); line numbers
+    and types are ignored"""
+    env = _env if _env is not None else {}
+
+    def go(n):
+        if isinstance(n, list):
+            return tuple(go(x) for x in n)
+        if not isinstance(n, dict):
+            return n if isinstance(n, (str, int, bool)) or n is None else str(n)
+        if "k" not in n:
+            return tuple((k, go(v)) for k, v in sorted(n.items()) if k not in ("line", "ty", "lid", "mac", "recv_ty", "resolved_full", "callee_local", "def_local"))
+        items = []
+        for k, v in sorted(n.items()):
+            if k in ("line", "ty", "mac", "recv_ty", "resolved_full", "callee_local", "def_local", "mode"):
+                continue
+            if k == "lid":
+                continue
+            if k == "name" and n["k"] in ("Path", "P.Binding") and (n.get("res") == "local" or n["k"] == "P.Binding"):
+                lid = n.get("lid")
+                if lid not in env:
+                    env[lid] = len(env)
+                items.append(("local", env[lid]))
+                continue
+            if k == "def" and n["k"] == "Closure":
+                continue
+            items.append((k, go(v)))
+        return tuple(items)
+    return go(node)
